@@ -16,12 +16,16 @@ def rnd(ty, x):
 
 
 def bits(ty, x):
+    if ty == "i64":
+        return int(x) & ((1 << 64) - 1)
     if ty == "f32":
         return struct.unpack("<I", struct.pack("<f", x))[0]
     return struct.unpack("<Q", struct.pack("<d", x))[0]
 
 
 def from_bits(ty, b):
+    if ty == "i64":
+        return b - (1 << 64) if b >> 63 else b
     if ty == "f32":
         return struct.unpack("<f", struct.pack("<I", b))[0]
     return struct.unpack("<d", struct.pack("<Q", b))[0]
@@ -64,6 +68,8 @@ def exact(x):
 
 def tok(x):
     """model token of a float: exact rational in hex or N"""
+    if isinstance(x, int):
+        return ("-%x/1" % -x) if x < 0 else ("%x/1" % x)
     q = exact(x)
     if q is None:
         return "N"
